@@ -27,19 +27,19 @@ func init() {
 		run: runC19,
 	})
 	register(&propSpec{
-		id: "C21",
+		id:          "C21",
 		explanation: "Static structural clauses for the sidecar parameter encoding: (a) every emitted value goes through appendToParamString, which skips empty values and refuses values containing a separator; (b) separators are chosen outside the characters of all values (fieldsAsStringValues over the whole params struct) and of a reserved constant that covers every literal parameter name and flag the builders emit; the second separator is chosen after adding the first to the excluded set; the helper scans run to the end of their input; (c) every builder starts with itemSep+kvSep and trims one trailing itemSep. Not decided: equivalence with the shell decoder.",
-		run: runC21,
+		run:         runC21,
 	})
 	register(&propSpec{
-		id: "C22",
+		id:          "C22",
 		explanation: "Static structural clauses for the write-range tracker: (a) offsets flow only into comparisons, min, a subtraction for the returned length and getKey, so behaviour depends only on their relative order; (b) trackWrite's walker partitions the markers into (key < start), (key <= end), (else): the first updates both inside-flags from the marker, the second deletes the marker and updates the after-flag, the third terminates; the start marker is inserted iff no range is open before start and the end marker iff none is open after end, at getKey(start)/getKey(end) with the right flags; empty writes are ignored; the tree is replaced by the transaction's commit under the lock; (c) getRangeToRead covers <=/> for both marker kinds. Not decided: the interval-union semantics itself.",
-		run: runC22,
+		run:         runC22,
 	})
 
 	addWitness(witness{Prop: "C16", Name: "excl-only-first-operand", File: "pkg/storage/localfs/store.go",
-		Old: "\t\toperation := func() error {\n\t\t\ttarget, err = l.fs.OpenFile(key, flag, 0600)\n\t\t\tif err != nil {\n\t\t\t\treturn fmt.Errorf(\"create record for %q: %v\", key, err)\n\t\t\t}\n\t\t\t_, err = storage.PipeIO(",
-		New: "\t\toperation := func() error {\n\t\t\ttarget, err = l.fs.OpenFile(key, os.O_CREATE|os.O_WRONLY|os.O_SYNC|os.O_TRUNC, 0600)\n\t\t\tif err != nil {\n\t\t\t\treturn fmt.Errorf(\"create record for %q: %v\", key, err)\n\t\t\t}\n\t\t\t_, err = storage.PipeIO(",
+		Old:    "\t\toperation := func() error {\n\t\t\ttarget, err = l.fs.OpenFile(key, flag, 0600)\n\t\t\tif err != nil {\n\t\t\t\treturn fmt.Errorf(\"create record for %q: %v\", key, err)\n\t\t\t}\n\t\t\t_, err = storage.PipeIO(",
+		New:    "\t\toperation := func() error {\n\t\t\ttarget, err = l.fs.OpenFile(key, os.O_CREATE|os.O_WRONLY|os.O_SYNC|os.O_TRUNC, 0600)\n\t\t\tif err != nil {\n\t\t\t\treturn fmt.Errorf(\"create record for %q: %v\", key, err)\n\t\t\t}\n\t\t\t_, err = storage.PipeIO(",
 		Expect: "put.exclusive"})
 	addWitness(witness{Prop: "C16", Name: "loser-removes-key", File: "pkg/storage/localfs/store.go",
 		Old: "\tif exclusive {\n\t\tflag |= os.O_EXCL\n\t}", New: "\tif exclusive {\n\t\tflag |= os.O_EXCL\n\t\tdefer func() {\n\t\t\tif err != nil {\n\t\t\t\t_ = l.fs.Remove(key)\n\t\t\t}\n\t\t}()\n\t}",
@@ -90,8 +90,8 @@ func init() {
 		Old: "\tif containsSep(paramVal) {\n\t\treturn paramString, errors.New(\"variables may not contain separator values\")\n\t}\n", New: "",
 		Expect: "values-checked"})
 	addWitness(witness{Prop: "C21", Name: "rune-scan-stops-early", File: "pkg/sidecar/param/params.go",
-		Old: "\tfor {\n\t\tch, _, err := rdr.ReadRune()\n\t\tif err == io.EOF {\n\t\t\tbreak\n\t\t}\n\t\tif err != nil {\n\t\t\treturn nil, err\n\t\t}\n\t\truneSeen := false",
-		New: "\tfor i := 0; i < len(str)/2+1; i++ {\n\t\tch, _, err := rdr.ReadRune()\n\t\tif err == io.EOF {\n\t\t\tbreak\n\t\t}\n\t\tif err != nil {\n\t\t\treturn nil, err\n\t\t}\n\t\truneSeen := false",
+		Old:    "\tfor {\n\t\tch, _, err := rdr.ReadRune()\n\t\tif err == io.EOF {\n\t\t\tbreak\n\t\t}\n\t\tif err != nil {\n\t\t\treturn nil, err\n\t\t}\n\t\truneSeen := false",
+		New:    "\tfor i := 0; i < len(str)/2+1; i++ {\n\t\tch, _, err := rdr.ReadRune()\n\t\tif err == io.EOF {\n\t\t\tbreak\n\t\t}\n\t\tif err != nil {\n\t\t\treturn nil, err\n\t\t}\n\t\truneSeen := false",
 		Expect: "scan-to-end"})
 	addWitness(witness{Prop: "C22", Name: "boundary-marker-kept", File: "pkg/filetracker/file_tracker.go",
 		Old: "\t\tcase key <= end:", New: "\t\tcase key < end:",
